@@ -50,19 +50,21 @@ PROPS = {
             {"harness": "H_C08_iter_q", "cross": "cvc5", "cases": list(range(0, 22))},
             {"harness": "H_C08_iter_big", "cross": "cvc5", "cases": list(range(0, 22))},
             {"harness": "H_C08_two", "cases": list(range(0, 28))},
+            {"harness": "H_C08_boundary", "cases": [2, 5, 9], "chunk": 1},
         ],
         "thorough": [
             {"harness": "H_C08_iter_s", "cases": list(range(12))},
             {"harness": "H_C08_iter_q", "cross": "cvc5", "cases": list(range(0, 38))},
             {"harness": "H_C08_iter_big", "cross": "cvc5", "cases": list(range(0, 38))},
             {"harness": "H_C08_two", "cases": list(range(0, 40))},
+            {"harness": "H_C08_boundary", "cases": list(range(12)), "chunk": 2},
             {"harness": "H_C08_crc", "timeout_ms": 900000, "cross": "z3-new", "maxsec": 3300},
         ],
-        "covers": {"quick": ["C08.iter.done", "C08.iter.tail-discarded", "C08.iter.record-from-tail-accepted", "C08.two.done", "C08.two.damaged-then-intact"], "thorough": ["C08.iter.done", "C08.iter.tail-discarded", "C08.iter.record-from-tail-accepted", "C08.two.done", "C08.two.damaged-then-intact", "C08.crc.done"]},
+        "covers": {"quick": ["C08.iter.done", "C08.iter.tail-discarded", "C08.iter.record-from-tail-accepted", "C08.two.done", "C08.two.damaged-then-intact", "C08.boundary.done", "C08.boundary.record-across-buffer-refill-accepted"], "thorough": ["C08.iter.done", "C08.iter.tail-discarded", "C08.iter.record-from-tail-accepted", "C08.two.done", "C08.two.damaged-then-intact", "C08.crc.done"]},
         "bounds": {"quick": "segment = header + p in {0,1} valid records + T fully symbolic tail bytes, T = 0..16; claimed record size <= 64 (exact framing) and > 64 up to 2^31+65545 (symbolic-length allocation)",
                    "thorough": "T = 0..24"},
         "assumptions": COMMON_ASSUME,
-        "outside": "tails longer than the bound, more than 1 valid record before the tail, positions relative to the 4096-byte bufio buffer, assembly CRC = generic CRC",
+        "outside": "tails longer than the bound, more than 1 valid record before the tail, assembly CRC = generic CRC; positions relative to the 4096-byte bufio buffer: a 14-byte symbolic tail starting 0..11 bytes before the first refill boundary (quick: 3 of the 12 positions)",
     },
     "C19": {
         "quick": [
